@@ -236,6 +236,7 @@ func c18Jobs(thorough bool) []json.RawMessage {
 		{Name: "hooks-fast-slow-beyond", Clients: []c18.Client{cl(c18.Busy, 0, 0)}, ExitWait: short, Hooks: []time.Duration{0, 500 * ms, 20 * sec}},
 		{Name: "late-connector", Clients: []c18.Client{cl(c18.Busy, 0, 0), cl(c18.Late, 0, 2*sec)}, ExitWait: short},
 		{Name: "no-clients", ExitWait: long, Hooks: []time.Duration{0, 0}},
+		{Name: "shutdown-while-starting", Clients: []c18.Client{cl(c18.Late, 0, 2*sec)}, ExitWait: short, ShutdownEarly: true},
 		{Name: "slow-connect-hooks", Clients: []c18.Client{cl(c18.Busy, 0, 0)}, ExitWait: long, ShutdownDelay: 100 * ms, ConnectHook: 400 * ms},
 		{Name: "slow-connect-hooks+idle", Clients: []c18.Client{cl(c18.Busy, 0, 0), cl(c18.Idle, 0, 300*ms)}, ExitWait: long, ShutdownDelay: 150 * ms, ConnectHook: 200 * ms},
 	}
